@@ -21,6 +21,20 @@ func main() {
 		cmdUnit(os.Args[2:])
 	case "check":
 		os.Exit(cmdCheck(os.Args[2:]))
+	case "funcs":
+		P, err := vc.Load("/repo", os.Args[2:])
+		if err != nil {
+			fmt.Fprintln(os.Stderr, err)
+			os.Exit(2)
+		}
+		var ks []string
+		for k := range P.Funcs {
+			ks = append(ks, k)
+		}
+		sort.Strings(ks)
+		for _, k := range ks {
+			fmt.Println(k)
+		}
 	case "replay":
 		os.Exit(cmdReplay(os.Args[2:]))
 	case "witness":
